@@ -438,13 +438,16 @@ type Explorer struct {
 	inSummary  int
 	countFns   bool
 	curPathLog []string
+	candHint   []uint64           // candidate values for the next NewVar (set by the harness API just before)
+	feas       map[*Term][]uint64 // finite-domain filter: remaining candidates per listed variable on this path
+	FDImplied  int64
 }
 
 // X is the explorer of this process (one unit at a time).
 var X *Explorer
 
 func NewExplorer(s *Solver) *Explorer {
-	return &Explorer{S: s, onPath: map[*Term]bool{}, model: Model{}, defv: map[*Term]uint64{},
+	return &Explorer{S: s, onPath: map[*Term]bool{}, feas: map[*Term][]uint64{}, model: Model{}, defv: map[*Term]uint64{},
 		pools: map[*value][]value{}, StepBudget: 3_000_000, PathBudget: 20000, DepthLimit: 4000,
 		Aborted: map[string]int{}, Reached: map[string]int{}, MaxSamples: 3,
 		FnSteps: map[string]int64{}, Intrinsics: map[string]int64{}, MaxViol: 3,
@@ -469,14 +472,29 @@ func varDefault(t *Term) uint64 {
 // dom receives the variable and returns the constraint (may be nil); def is a
 // value inside the domain.
 func (x *Explorer) NewVar(name string, w uint8, def uint64, dom func(v *Term) *Term) *Term {
+	cands := x.candHint
+	x.candHint = nil
 	k := termKey{OpVar, w, -1, -1, -1, 0, name}
 	if t, ok := tt.tab[k]; ok {
 		return t
 	}
 	v := TVar(name, w)
 	x.defv[v] = def
+	var domTerm *Term
 	if dom != nil {
-		if c := dom(v); c != nil && c != TTrue {
+		domTerm = dom(v)
+	}
+	if cands != nil || w <= 8 {
+		if cands == nil {
+			// booleans and bytes: the whole type
+			for c := uint64(0); c <= mask(w); c++ {
+				cands = append(cands, c)
+			}
+		}
+		fdRegister(v, cands, domTerm)
+	}
+	if dom != nil {
+		if c := domTerm; c != nil && c != TTrue {
 			x.global = append(x.global, c)
 			x.newGlob = append(x.newGlob, c)
 			if Eval(c, Model{v: def}) == 0 {
@@ -506,6 +524,15 @@ func (x *Explorer) decide(cond *Term, site string) bool {
 		x.Implied++
 		return v
 	}
+	// finite-domain pre-filter (fd.go): a condition over one listed variable that has the same value for
+	// every remaining candidate is implied; like the syntactic test above this comes before the prefix
+	fdRes, fdV, fdTruth := x.fdDecide(cond)
+	if fdRes >= 0 {
+		x.Implied++
+		x.FDImplied++
+		x.record(cond, fdRes == 1)
+		return fdRes == 1
+	}
 	x.Decisions++
 	if x.idx < len(x.prefix) {
 		d := &x.prefix[x.idx]
@@ -514,6 +541,9 @@ func (x *Explorer) decide(cond *Term, site string) bool {
 		}
 		x.idx++
 		x.record(cond, d.taken)
+		if fdV != nil {
+			x.fdNarrow(fdV, fdTruth, d.taken)
+		}
 		return d.taken
 	}
 	if len(x.prefix) >= x.DepthLimit {
@@ -523,6 +553,9 @@ func (x *Explorer) decide(cond *Term, site string) bool {
 	x.prefix = append(x.prefix, decision{cond: cond, taken: v, site: site})
 	x.idx++
 	x.record(cond, v)
+	if fdV != nil {
+		x.fdNarrow(fdV, fdTruth, v)
+	}
 	return v
 }
 
@@ -674,6 +707,7 @@ func (x *Explorer) Explore(check func()) {
 		}
 		x.idx = 0
 		x.onPath = map[*Term]bool{}
+		x.feas = map[*Term][]uint64{}
 		x.steps = 0
 		x.Notes = x.Notes[:0]
 		x.inCheck = true
